@@ -39,15 +39,51 @@ META = {'design_ref': 'DESIGN.md section 7 / C17',
                'resolution is safe with respect to the reference server table (C17_null_inv, C17_manual_inv, C17_lru_inv: alias in 1..max, topic omitted only '
                'for an alias the server maps to exactly that topic, none when max = 0), the LRU panic site is unreachable (C17_no_panic), and the inbound '
                'resolver answers from the latest binding since the last reset, refuses unknown / zero / out-of-range aliases and never surfaces an empty topic '
-               'with an alias (C17_inbound, C17_inbound_bindings, C17_inbound_reset_forgets, C17_inbound_never_empty). Engine level: a successful CONNACK '
-               'resets both resolvers with the new maximum (C17_connack_resets_aliases); the wire statement (a PUBLISH with an empty topic only with an alias '
-               'an earlier PUBLISH of the same connection bound to exactly that topic; alias in 1..maximum; none in 3.1.1) is the extracted monitor '
-               'mon_c17_out on the implementation trace. D22 (fixed by /repo 10d5c82): before the fix the LRU resolver returned alias 0 for the 65536th '
-               'distinct topic when configured with 65535 and the server announced 65535 (alias.rs:206 `(len + 1) as u16`); witness `F 65535` in '
-               'corpus/C17/resolver.txt is a regression case now. D7 (fixed by /repo b059c31): the resolver recorded a binding before last-chance validation. '
-               'Engine-level monitors on the implementation trace: mon_c17_out (the server-side alias table reconstructed from the wire gives the submitted '
-               'topic; alias in 1..Topic Alias Maximum of the CONNACK; none under 3.1.1 or maximum 0) and mon_c17_in (a publish accepted with an alias has it '
-               'in 1..the maximum the CONNECT announced, an empty topic refers to an alias bound on this connection, and the message is surfaced with the '
-               'topic that table gives).',
- 'technique': 'machine-checked proof in Coq (induction over resolver operation histories; engine handler theorems) + lock-step correspondence + extracted '
-              'monitor on the implementation trace'}
+               'with an alias (C17_inbound, C17_inbound_bindings, C17_inbound_reset_forgets, C17_inbound_never_empty). Engine level, ONE STEP: a successful '
+               'CONNACK resets both resolvers with the new maximum (C17_connack_resets_aliases). Engine level, RUN-LEVEL (EngineProofs/AliasRun*.v; theorems '
+               'by induction over `run` from `init` for EVERY event history, hypotheses only comps_ok / ok_cfg / Forall ok_event, all discharged for the '
+               "concrete engine of Engine/Instance.v by WFInstance.instance_comps_ok): the model's seat_current / service_loop / handle_packets are "
+               'instrumented with the log of every call to the outbound / inbound resolver, to the last-chance validator v_out and to the encoder constructor '
+               "enc_reset, with arguments and results, and proved equal to the model's functions (C17_seat_log_is_model, C17_service_loop_log_is_model, "
+               'C17_handle_packets_log_is_model). OUTBOUND (C17_outbound_alias_run, C17_log_replay): the log of every history is accepted by a reference '
+               "machine whose resolver is the engine's resolver, i.e. s_ores after any history = the replay of the logged ores_reset / ores_resolve calls from "
+               "the initial resolver (nothing else writes it), every logged answer is the resolver's answer at that point (C17_resolve_after_pick), the "
+               'encoder slot of the machine is s_cur, and the Topic Alias Maximum in the negotiated settings is that of the last accepted CONNACK. Spelled out '
+               'on log positions: an encoder is constructed only right after v_out accepted the same packet with the same resolution, which for a PUBLISH is '
+               "the resolution the resolver returned for exactly that packet's (alias, topic) one event earlier (C17_encode_after_validation); when v_out "
+               'rejects a packet after resolution the model resets the resolver iff the resolution carried an alias, with the maximum of the last accepted '
+               'CONNACK (or 0 without settings), and then fails the operation — the D7 repair, proved exactly (C17_reset_after_rejection, '
+               'C17_rejection_shape); an operation is dequeued and resolved only while the encoder slot is free, i.e. after the previously seated operation '
+               'was completely encoded (enc_done, fully_written), failed, gone, or the connection closed / reopened / the engine reset '
+               '(C17_pick_only_when_slot_free, C17_done_closes_seat), so resolutions happen in wire order; a seat that fails between dequeue and encoder '
+               'construction is the last event of its service call and halts the engine (C17_service_break_halts); and in every history a PUBLISH reaches the '
+               'encoder only on a live connection: after an accepted CONNACK with no close / reset / failed seat since, never while the CONNACK is awaited '
+               '(C17_publish_only_on_live_connection; uses the WF invariant and the C07 protocol-state table). COROLLARY on the concrete engine with the null '
+               '/ manual / LRU (configured maximum <= 65535) resolvers, combining the above with C17_null_inv / C17_manual_inv / C17_lru_inv through a '
+               'simulation in which the server sees only the PUBLISH packets that reached the encoder (C17_wire_sim): for every history every PUBLISH handed '
+               'to the encoder is safe for a server that cleared its table at the last accepted CONNACK (C17_instance_wire_ok); explicitly '
+               '(C17_instance_alias_on_wire) without an alias the topic is kept, with an alias the alias is in 1..Topic Alias Maximum of that CONNACK, and if '
+               'the topic is omitted then an earlier PUBLISH handed to the encoder after that CONNACK carried this alias together with exactly this topic and '
+               'no PUBLISH in between rebound the alias; with maximum 0 (or no CONNACK) no alias is used (C17_instance_no_alias_when_max_zero); a decoded '
+               '3.1.1 CONNACK carries no maximum (C17_connack311_no_tam, one-step decoder fact; that every CONNACK emitted by the 3.1.1 framing loop comes '
+               'from that decoder function is not proved here). INBOUND (C17_inbound_alias_run, C17_instance_inbound_alias_run): s_ires after any history = '
+               'the replay of the logged calls: ires_reset exactly at accepted CONNACKs (same place as the outbound reset; net_opened does not touch it), '
+               'ires_resolve exactly once per processed inbound PUBLISH in order; the PUBLISH events handed to the application are exactly the logged '
+               'surfacings, each directly after its resolver call succeeded and carrying the topic that call returned (C17_instance_surfaced_topic); what each '
+               'call returned is the answer of the resolver-level theorem on the bindings since the last accepted CONNACK: the latest binding of that alias, '
+               'or InvalidInboundTopicAlias for an unknown / zero / out-of-range alias (C17_instance_inbound_resolution); a resolver error fails the data call '
+               'with that error, halts the engine and is the last event of the step: nothing is surfaced for that packet (C17_inbound_error_fails, every '
+               'state). Non-vacuity: vm_compute run of the concrete engine with an LRU resolver in which a QoS 1 publish is rejected after its alias was bound '
+               '(C17_run_witness_outbound / _premises / _inbound). NOT PROVED at run level: that the bytes produced by the encoder for (packet, resolution) '
+               "are what the server parses (C02, per packet kind), that a submitted topic is non-empty (a guarantee of the clients' submission-time validator, "
+               "not of the engine's last-chance validator), and the link from the log statements to the byte stream; these stay with the extracted monitor "
+               'mon_c17_out / mon_c17_in on the implementation trace (exploration, not proof). D22 (fixed by /repo 10d5c82): before the fix the LRU resolver '
+               'returned alias 0 for the 65536th distinct topic when configured with 65535 and the server announced 65535 (alias.rs:206 `(len + 1) as u16`); '
+               'witness `F 65535` in corpus/C17/resolver.txt is a regression case now. D7 (fixed by /repo b059c31): the resolver recorded a binding before '
+               'last-chance validation. Engine-level monitors on the implementation trace: mon_c17_out (the server-side alias table reconstructed from the '
+               'wire gives the submitted topic; alias in 1..Topic Alias Maximum of the CONNACK; none under 3.1.1 or maximum 0) and mon_c17_in (a publish '
+               'accepted with an alias has it in 1..the maximum the CONNECT announced, an empty topic refers to an alias bound on this connection, and the '
+               'message is surfaced with the topic that table gives).',
+ 'technique': 'machine-checked proof in Coq (induction over resolver operation histories; run-level engine theorems by induction over event histories with an '
+              'instrumented model and a reference log machine; engine handler theorems) + lock-step correspondence + extracted monitor on the implementation '
+              'trace'}
